@@ -126,21 +126,22 @@ example : ∃ (m : Model (Ext K)) (b : BoundsMap (Ext K)) (d : List (DomVar (Ext
 "The bridge"; `DomRel` and `BoxEnforced` are discharged from C07/C10 for what the pipeline computes). -/
 
 open Rooc.BoundsProofs in
-/-- **C02 for the whole pipeline, piecewise-linear models**, every tolerance `t ≥ 0`, every step limit: for a
+/-- **C02 for the whole pipeline, piecewise-linear models**, every tolerance `0 ≤ t < 1`, every step limit: for a
 source-feasible `ρ` with objective value `v`, every feasible auxiliary extension has a linear objective on the
 right side of `v` (`rel (objReq m) w v`, see `objReq_cases`), and some feasible extension attains `v`.
-`_partial`: the fragment and `IntRangesInBox` on the computed analyzer state
-(`Rooc.Props.C01.c01_int_tolerance_counterexample`: there the linear optimum is 5, the source optimum 4). -/
+`_partial`: the fragment only — `IntRangesInBox` is discharged for the computed analyzer state since fix b9d407a
+(`Rooc.LinP.enforceable_int_ranges_in_box`; `Rooc.Props.C01.c01_int_tolerance_counterexample` shows what the unrounded box
+allowed: linear optimum 5, source optimum 4). -/
 theorem c02_compile_partial {m : Model (Ext K)} {t : K} (ht : 0 ≤ t) {maxSteps : Nat} {lm : LinModel (Ext K)}
     (h : Compile.linearize m (.fin t) maxSteps = .ok lm)
     (hm : FragModel true m m.domain) (hok : DeclOK m.domain)
-    (hint : ∀ an, pipelineAnalyzer m (.fin t) maxSteps = some an → IntRangesInBox an m.domain)
+    (ht1 : t < 1)
     (ρ : String → K) (hs : srcFeasible m ρ = true) (v : K) (hv : eval ρ m.objective = some v) :
     (∀ ρ' : String → K, (∀ x, inScope m.domain x → ρ' x = ρ x) → linFeasible lm ρ' = true →
         ∃ w, linObjective lm ρ' = some w ∧ rel (objReq m) w v) ∧
     (∃ ρ' : String → K, (∀ x, inScope m.domain x → ρ' x = ρ x) ∧ linFeasible lm ρ' = true ∧
         linObjective lm ρ' = some v) :=
-  compile_objective ht h hm hok hint ρ hs v hv
+  compile_objective ht h hm hok (Or.inl ht1) ρ hs v hv
 
 /-- the same for models that declare no `IntegerRange` variable: no hypothesis on computed data. -/
 theorem c02_compile_noint_partial {m : Model (Ext K)} {t : K} (ht : 0 ≤ t) {maxSteps : Nat} {lm : LinModel (Ext K)}
@@ -151,20 +152,20 @@ theorem c02_compile_noint_partial {m : Model (Ext K)} {t : K} (ht : 0 ≤ t) {ma
         ∃ w, linObjective lm ρ' = some w ∧ rel (objReq m) w v) ∧
     (∃ ρ' : String → K, (∀ x, inScope m.domain x → ρ' x = ρ x) ∧ linFeasible lm ρ' = true ∧
         linObjective lm ρ' = some v) :=
-  compile_objective ht h hm hok (fun an _ => intRangesInBox_of_noInt hni an) ρ hs v hv
+  compile_objective ht h hm hok (Or.inr hni) ρ hs v hv
 
 /-- Consequence for the whole pipeline: equal optimal values of a minimisation model (attained on both sides). -/
 theorem c02_compile_min_optimum_partial {m : Model (Ext K)} {t : K} (ht : 0 ≤ t) {maxSteps : Nat}
     {lm : LinModel (Ext K)} (h : Compile.linearize m (.fin t) maxSteps = .ok lm)
     (hm : FragModel true m m.domain) (hok : Rooc.LinP.DeclOK m.domain)
-    (hint : ∀ an, pipelineAnalyzer m (.fin t) maxSteps = some an → IntRangesInBox an m.domain)
+    (ht1 : t < 1)
     (hmin : m.optType = .min)
     (ρ : String → K) (hs : srcFeasible m ρ = true) (v : K) (hv : eval ρ m.objective = some v)
     (hopt : ∀ ρ₂ : String → K, srcFeasible m ρ₂ = true → ∀ v₂, eval ρ₂ m.objective = some v₂ → v ≤ v₂) :
     (∃ ρ' : String → K, linFeasible lm ρ' = true ∧ linObjective lm ρ' = some v) ∧
     (∀ ρ'' : String → K, linFeasible lm ρ'' = true → ∀ w, linObjective lm ρ'' = some w → v ≤ w) := by
   obtain ⟨an, han, hlin⟩ := (compile_ok_iff m _ maxSteps lm).mp h
-  obtain ⟨hdom, hbox⟩ := pipeline_hyps ht maxSteps hm hok han (hint an han)
+  obtain ⟨hdom, hbox⟩ := pipeline_hyps ht maxSteps hm hok han (Or.inl ht1)
   exact c02_min_optimum_partial hlin (fragModel_applyToDomain an hm) hdom hbox hmin ρ hs v hv hopt
 
 /-- non-vacuity through the pipeline with a real auxiliary and a source-feasible point (step limit 0, every
